@@ -75,7 +75,8 @@ def run_demo(d, m):
             if not ok:
                 return {"error": o}
         shutil.copy(m["demo"], f"{repo}/tests/seeded_demo.rs")
-        rc, o = sh(f"cargo test --offline {feat} --test seeded_demo 2>&1 | grep -E '^test result|^error|^test .* (ok|FAILED)' | tail -12", cwd=repo, env=lane_env(d))
+        rel = "--release" if m.get("demo_release") else ""
+        rc, o = sh(f"cargo test --offline {rel} {feat} --test seeded_demo 2>&1 | grep -E '^test result|^error|^test .* (ok|FAILED)' | tail -12", cwd=repo, env=lane_env(d))
         passed = sum(int(x) for x in re.findall(r"(\d+) passed", o))
         failed = sum(int(x) for x in re.findall(r"(\d+) failed", o))
         out[label] = {"passed": passed, "failed": failed, "tail": o[-300:]}
@@ -134,12 +135,13 @@ def main():
     ap.add_argument("--patch")
     ap.add_argument("--demo")
     ap.add_argument("--demo-features", default="")
+    ap.add_argument("--demo-release", action="store_true")
     ap.add_argument("--props", default="")
     ap.add_argument("--out", default=f"{VERIF}/mutants/results.json")
     ap.add_argument("--base", type=int, default=0, help="first lane number (use distinct bases for concurrent invocations)")
     a = ap.parse_args()
     if a.patch:
-        muts = [{"id": os.path.basename(os.path.dirname(os.path.abspath(a.patch))) or "patch", "patch": os.path.abspath(a.patch), "props": a.props.split(",") if a.props else ALL, "demo": os.path.abspath(a.demo) if a.demo else None, "demo_features": a.demo_features}]
+        muts = [{"id": os.path.basename(os.path.dirname(os.path.abspath(a.patch))) or "patch", "patch": os.path.abspath(a.patch), "props": a.props.split(",") if a.props else ALL, "demo": os.path.abspath(a.demo) if a.demo else None, "demo_features": a.demo_features, "demo_release": a.demo_release}]
     else:
         muts = json.load(open(f"{VERIF}/tools/mutants.json"))
         if a.only:
